@@ -65,6 +65,12 @@ def load(raw):
     return api.read_sunvox_file(BytesIO(raw))
 
 
+def load_path(path):
+    """Load by file NAME (the library opens the file itself)."""
+    import rv.api as api
+    return api.read_sunvox_file(str(path))
+
+
 def type_histogram(res, snap, name="module_types"):
     for m in snap.get("modules", []):
         if m is not None:
